@@ -333,6 +333,8 @@ class FakeSnowflakeCursor:
             schema = table.db or self._conn.schema
             assert catalog and schema
             self._duck_conn.execute(info_schema.insert_table_comment_sql(catalog, schema, table.name, comment))
+            # the result of the statement is its status row, not the result of the bookkeeping insert
+            result_sql = result_sql or SQL_SUCCESS
 
         if (text_lengths := cast(list[tuple[str, int]], transformed.args.get("text_lengths"))) and (
             table := transformed.find(exp.Table)
@@ -342,6 +344,7 @@ class FakeSnowflakeCursor:
             schema = table.db or self._conn.schema
             assert catalog and schema
             self._duck_conn.execute(info_schema.insert_text_lengths_sql(catalog, schema, table.name, text_lengths))
+            result_sql = result_sql or SQL_SUCCESS
 
         if result_sql:
             self._log_sql(result_sql, params)
